@@ -882,19 +882,26 @@ class EvalError(Exception):
     pass
 
 
-def _mini_eval(fn: ast.FunctionDef, env: dict, allowed_calls: set[str], max_steps: int = 500):
+class Crash(EvalError):
+    """The evaluated code itself raised on the given input (as opposed to leaving the evaluable subset)."""
+
+
+def _mini_eval(fn: ast.FunctionDef, env: dict, allowed_calls: set[str], max_steps: int = 500, local_calls: bool = False):
     """Evaluate a small method body (assign / augmented assign / if / for / return / break / continue; expressions restricted to
     names bound in `env`, attribute reads, boolean and set operators, comparisons, comprehensions and calls of `allowed_calls`)
     on fake objects supplied by the rule.  Anything else raises EvalError (the obligation is then undecided, not failed)."""
     env = dict(env)
     steps = 0
-    SAFE = {"set": set, "any": any, "all": all, "bool": bool, "len": len, "frozenset": frozenset, "list": list, "isinstance": isinstance}
+    SAFE = {"set": set, "any": any, "all": all, "bool": bool, "len": len, "frozenset": frozenset, "list": list, "isinstance": isinstance,
+            "tuple": tuple}
 
     def check(e):
         for n in ast.walk(e):
             if isinstance(n, ast.Call):
                 f = n.func
                 name = f.attr if isinstance(f, ast.Attribute) else (f.id if isinstance(f, ast.Name) else None)
+                if local_calls and isinstance(f, ast.Name) and f.id in env:
+                    continue    # a callable the rule itself handed in (or one bound from it)
                 if name not in allowed_calls and name not in SAFE and name not in ("add", "update", "union"):
                     raise EvalError(f"call `{norm_stmt(f)}` outside the evaluable subset")
             elif isinstance(n, (ast.Lambda, ast.Yield, ast.YieldFrom, ast.Await)):
@@ -907,7 +914,7 @@ def _mini_eval(fn: ast.FunctionDef, env: dict, allowed_calls: set[str], max_step
         except EvalError:
             raise
         except Exception as ex:
-            raise EvalError(f"{type(ex).__name__}: {ex}")
+            raise Crash(f"{type(ex).__name__}: {ex}")
 
     def store(t, v):
         if isinstance(t, ast.Name):
@@ -918,6 +925,18 @@ def _mini_eval(fn: ast.FunctionDef, env: dict, allowed_calls: set[str], max_step
             ev(t.value)[ev(t.slice)] = v
         elif isinstance(t, (ast.Tuple, ast.List)):
             vs = list(v)
+            star = [i for i, e in enumerate(t.elts) if isinstance(e, ast.Starred)]
+            if star:
+                i = star[0]
+                after = len(t.elts) - i - 1
+                if len(star) > 1 or len(vs) < len(t.elts) - 1:
+                    raise EvalError("unpack arity")
+                for a, b in zip(t.elts[:i], vs[:i]):
+                    store(a, b)
+                store(t.elts[i].value, vs[i:len(vs) - after])
+                for a, b in zip(t.elts[i + 1:], vs[len(vs) - after:]):
+                    store(a, b)
+                return
             if len(vs) != len(t.elts):
                 raise EvalError("unpack arity")
             for a, b in zip(t.elts, vs):
